@@ -325,16 +325,16 @@ def canon_digest(d):
 
 # -- edits (C10) ---------------------------------------------------------------------------
 POOL = {
-    "name": ["", "*", "+", "9bad", "has space", "fresh-name", "getSectionX", "K1", "k1"],
+    "name": ["", "*", "+", "9bad", "has space", "fresh-name", "getSectionX", "K1", "k1", "\u212a1", "a\u017f"],
     "attribute": ["", "9x", "a-b", "getSectionFoo", "fresh_attr", "k1"],
     "type": ["", "nosuch", "T1", "abs1"],
     "extends": ["", "nosuch", "9bad", "abs1", "t1"],
     "implements": ["", "nosuch", "9bad", "abs1", "t1"],
     "required": ["yes", "no", "true", "YES", ""],
-    "datatype": ["integer", "Integer", "nosuch", "no such", "zcv.dts.wrap"],
+    "datatype": ["integer", "Integer", "nosuch", "no such", "zcv.dts.wrap", "boo\u212aean"],
     "keytype": ["identifier", "Basic-Key", "nosuch", "ipaddr-or-hostname"],
     "valuetype": ["string", "nosuch"],
-    "handler": ["h1", "9h", "", "H-2"],
+    "handler": ["h1", "9h", "", "H-2", "\u212ah"],
     "default": ["v", ""],
     "key": ["dk9", "", "9k", "D1", "d1"],
     "prefix": ["zcv.dts", ".dts", "9x", "zcv..x"],
@@ -447,12 +447,16 @@ def edits(tree, rng=None, dense=True, pool=None):
                 cv = v.upper() if v.upper() != v else v.lower()
                 if attr in ("name", "type", "extends", "implements") and cv not in vals:
                     vals.append(cv)
+            pooled = set((pool or POOL).get(attr, []))
             for v in vals:
                 if n["a"].get(attr) == v:
                     continue
                 t = copy.deepcopy(tree)
                 node_at(t, path)["a"][attr] = v
-                yield ("set %s/%s@%s=%r" % ("/".join(map(str, path)), n["tag"], attr, v)), t
+                # "set!" = the value is taken from the document itself (a sibling's or an inherited item's name /
+                # attribute, a type name): the edits most likely to probe a uniqueness or reference rule
+                yield ("%s %s/%s@%s=%r" % ("set" if v in pooled else "set!", "/".join(map(str, path)), n["tag"],
+                                           attr, v)), t
             if attr in n["a"]:
                 t = copy.deepcopy(tree)
                 del node_at(t, path)["a"][attr]
